@@ -170,7 +170,7 @@ PROPS = {
                 "JSON of the case.",
         "assumptions": COMMON_ASSUMPTIONS + [
             "oracle is strict <= got <= lenient where the documentation leaves the array reading open",
-            "typed variants cover core.Map, []string and int / int64 for integral numbers at any position (also inside arrays)",
+            "typed variants cover core.Map, []string (also empty typed slices) and int / int64 for integral numbers at any position (also inside arrays)",
         ],
         "parts": [
             {"name": "match", "mode": "plain", "test": "TestC05",
